@@ -163,6 +163,7 @@ func cellOptTime(s string) abs.Opt[int] {
 	}
 	return abs.Some(cellTime(s))
 }
+
 // stop token 0 is the stop without an id: an empty cell
 func stopID(tok int) string {
 	if tok == 0 {
